@@ -1,6 +1,7 @@
 package main
 
 import (
+	"go/constant"
 	"fmt"
 	"go/token"
 	"go/types"
@@ -33,6 +34,8 @@ func falseEdgeStarts(fx *Facts, call *ssa.Call) []cfgPos {
 }
 
 func runC03(c *Ctx) {
+	runC03CloneRecursion(c)
+	runC03StaleTearDown(c)
 	p, fx := c.P, c.Fx
 	runC03Ready(c)
 	runC03Clean(c)
@@ -737,4 +740,179 @@ func runC03ReadyFilter(c *Ctx) {
 			"a workload can reach PushJob with FilterUnready set and without a successful readiness test ("+pathStr(path)+"): GetTasksToAllocate returns fewer pods than the minimum needs, AllocateJob places them, and a gang is bound below its minimum")
 	}
 	c.Floor("O11", "MPT PushJob in InitializeWithJobs", n, 1)
+}
+
+// runC03CloneRecursion (O14): the solver works on clones of a gang (victim representatives, remaining-task clones, the
+// partial preemptor); which pods of the gang are really evicted is read from those clones. A clone of a tree-shaped
+// sub-group structure must copy the whole tree: for every type T with a field holding children of the same type T, T's
+// Clone method clones each child through itself. A flat copy of the first level loses the deeper pod sets, the tasks in
+// them are dropped from the clone ("sub group not found") and only a part of the gang is evicted.
+func runC03CloneRecursion(c *Ctx) {
+	n := 0
+	for _, fn := range c.P.FuncsIn("pkg/scheduler/api") {
+		recv := fn.Signature.Recv()
+		if recv == nil || !strings.HasPrefix(fn.Name(), "Clone") || len(fn.Blocks) == 0 {
+			continue
+		}
+		ptr, ok := recv.Type().(*types.Pointer)
+		if !ok {
+			continue
+		}
+		named, ok := ptr.Elem().(*types.Named)
+		if !ok {
+			continue
+		}
+		st, ok := named.Underlying().(*types.Struct)
+		if !ok {
+			continue
+		}
+		for i := 0; i < st.NumFields(); i++ {
+			fld := st.Field(i)
+			var elem types.Type
+			switch x := fld.Type().Underlying().(type) {
+			case *types.Slice:
+				elem = x.Elem()
+			case *types.Map:
+				elem = x.Elem()
+			}
+			if elem == nil || !types.Identical(elem, recv.Type()) {
+				continue
+			}
+			n++
+			// a self call whose receiver is an element of that field
+			found := false
+			// (searched also in the helpers the method calls: the child loop may have been extracted)
+			for _, h := range c.P.deepFind(fn, isCallToFn(fn), 2) {
+				cc := h.In.(ssa.CallInstruction)
+				if len(cc.Common().Args) == 0 {
+					continue
+				}
+				v := cc.Common().Args[0]
+				for k := 0; k < 8 && v != nil && !found; k++ {
+					switch x := v.(type) {
+					case *ssa.Extract:
+						v = x.Tuple
+					case *ssa.Next:
+						v = x.Iter
+					case *ssa.Range:
+						v = x.X
+					case *ssa.UnOp:
+						v = x.X
+					case *ssa.IndexAddr:
+						v = x.X
+					case *ssa.Lookup:
+						v = x.X
+					case *ssa.FieldAddr:
+						if x.X.Type().Underlying().(*types.Pointer).Elem().Underlying().(*types.Struct).Field(x.Field) == fld {
+							found = true
+						}
+						v = nil
+					case *ssa.Call:
+						// a getter of the field (GetChildGroups)
+						if cal := x.Call.StaticCallee(); cal != nil && len(cal.Blocks) == 1 {
+							for _, gi := range cal.Blocks[0].Instrs {
+								if fa, ok := gi.(*ssa.FieldAddr); ok && fa.X.Type().Underlying().(*types.Pointer).Elem().Underlying().(*types.Struct).Field(fa.Field) == fld {
+									found = true
+								}
+							}
+						}
+						v = nil
+					default:
+						v = nil
+					}
+				}
+			}
+			c.Check(found, "O14", "SHAPE", fmt.Sprintf("%s: the children in field %s are cloned through %s itself", funcKey(fn), fld.Name(), fn.Name()), fn.Pos(), "recursive call on the elements of the field",
+				"the clone of a "+named.Obj().Name()+" does not clone its children of the same type recursively: levels below the first are missing in every clone, the solver's victim representatives lose the tasks of the deeper pod sets and a gang is evicted in part")
+		}
+	}
+	c.Floor("O14", "SHAPE Clone methods of self-nested types", n, 1)
+}
+
+// statusMaskOf: for a predicate of the form `return <constant set> & status != 0` the constant set.
+func statusMaskOf(fn *ssa.Function) (int64, bool) {
+	if fn == nil || len(fn.Blocks) != 1 {
+		return 0, false
+	}
+	for _, in := range fn.Blocks[0].Instrs {
+		b, ok := in.(*ssa.BinOp)
+		if !ok || b.Op != token.AND {
+			continue
+		}
+		for _, op := range []ssa.Value{b.X, b.Y} {
+			if k, isC := op.(*ssa.Const); isC && k.Value != nil {
+				if v, exact := constant.Int64Val(constant.ToInt(k.Value)); exact {
+					return v, true
+				}
+			}
+		}
+	}
+	return 0, false
+}
+
+// runC03StaleTearDown (O15): when a gang that fell below its minimum has used up its grace period, it is evicted as a
+// whole: every pod that holds (or is about to hold) resources is part of the tear-down — Allocated, Pipelined, Binding,
+// Bound and Running, the statuses that count as "active" in the staleness test itself. A filter that leaves one of
+// them out (e.g. a pod whose bind is in flight) lets that pod run alone below the gang's minimum.
+func runC03StaleTearDown(c *Ctx) {
+	f := c.Anchor("O15", "pkg/scheduler/actions/stalegangeviction", "", "handleStaleJob")
+	if f == nil {
+		return
+	}
+	sp := c.P.SSAPkgs[modPath+"/pkg/scheduler/api/pod_status"]
+	if sp == nil {
+		c.Undec("O15", "ANCHOR", "package pod_status", 0, "not loaded")
+		return
+	}
+	var required, all int64
+	for name, m := range sp.Members {
+		nc, ok := m.(*ssa.NamedConst)
+		if !ok || !strings.HasSuffix(typeKey(nc.Type()), "pod_status.PodStatus") {
+			continue
+		}
+		v, _ := constant.Int64Val(constant.ToInt(nc.Value.Value))
+		all |= v
+		switch name {
+		case "Allocated", "Pipelined", "Binding", "Bound", "Running":
+			required |= v
+		}
+	}
+	n := 0
+	for _, h := range c.P.deepFind(f, func(in ssa.Instruction) bool {
+		call, ok := in.(*ssa.Call)
+		if !ok {
+			return false
+		}
+		bi, isB := call.Common().Value.(*ssa.Builtin)
+		return isB && bi.Name() == "append" && strings.HasSuffix(typeKey(call.Type()), "pod_info.PodInfo")
+	}, 2) {
+		n++
+		var accepted int64
+		for _, fs := range c.Fx.pathFactsTo(h.In.Block(), 3) {
+			if fs.Bottom {
+				continue
+			}
+			pathMask := all // a path without a status test accepts every status
+			for _, ft := range fs.sorted() {
+				t := ft.T
+				if ft.Pol && t.Op == "call" && len(t.Args) > 0 && t.Args[len(t.Args)-1].lastField() == "Status" {
+					if cal, ok := t.V.(*ssa.Call); ok {
+						if m, ok := statusMaskOf(cal.Call.StaticCallee()); ok {
+							pathMask &= m
+						}
+					}
+				}
+				if t.Op == "bin" && len(t.Args) == 2 && t.Args[0].lastField() == "Status" && (t.Name == "==") == ft.Pol {
+					if k, ok := t.Args[1].V.(*ssa.Const); ok && k.Value != nil {
+						v, _ := constant.Int64Val(constant.ToInt(k.Value))
+						pathMask &= v
+					}
+				}
+			}
+			accepted |= pathMask
+		}
+		c.Check(accepted&required == required, "O15", "RET", funcKey(f)+": the tear-down of a stale gang takes every pod in an active allocated status", instrPos(h.In), fmt.Sprintf("statuses taken %#x ⊇ Allocated|Pipelined|Binding|Bound|Running %#x", accepted, required),
+			fmt.Sprintf("the pods evicted for a stale gang are selected by a status set (%#x) that misses an active status (required %#x, e.g. Binding or Pipelined): such a pod survives the tear-down and runs alone below the gang's minimum", accepted, required))
+	}
+	c.Floor("O15", "RET tear-down selections", n, 1)
 }
